@@ -65,7 +65,8 @@ def main():
             dst = os.path.join(VERIF, 'seeded', a.keep_as)
             os.makedirs(dst, exist_ok=True)
             for f in ('patch.diff', 'demo.py'):
-                shutil.copy(os.path.join(seed, f), os.path.join(dst, f))
+                if os.path.abspath(os.path.join(seed, f)) != os.path.abspath(os.path.join(dst, f)):   # re-validating a kept seed in place
+                    shutil.copy(os.path.join(seed, f), os.path.join(dst, f))
             meta['confirmed'] = {'demo_without_change_exit': rc0, 'demo_with_change_exit': rc1, 'tests_with_change': res['tests_with_change'],
                                  'valid': res['valid'],
                                  'ran': 'tools/seedtest.py: demo on clean tree; git apply patch.diff; pytest test; demo again; then ./check <id> --tier %s with KNEE_REPO=<patched tree>' % a.tier}
